@@ -45,7 +45,7 @@ class C17(SCheck):
     default_seed = 17017
     N = {"quick": 220, "thorough": 6000}
     K = {"quick": 1, "thorough": 2}
-    technique = "deterministic simulation (input-driven): generated .gitignore x tree, `git check-ignore --no-index` as the oracle for git's semantics; runs under the supervisor with permuted walk order and short reads of the .gitignore file"
+    technique = "deterministic simulation (input-driven): generated .gitignore x tree, `git check-ignore --no-index` as the oracle for git's semantics; runs under the supervisor with permuted walk order, short reads of the .gitignore file and one injected errno at stat/open/read/getdents calls on source entries"
     rule = ("case = source tree over a small name vocabulary (so that patterns hit) with nested dirs, hidden files, symlinks to files and dirs; "
             ".gitignore of 1-6 lines drawn from literals, *, ?, **/, trailing /, leading /, ! negation, comments, blank lines; with and without "
             "--gitignore; optional kernel per-call read limit (the file is read through short reads); oracle: set of relative paths in the "
